@@ -2,7 +2,9 @@ package bloomfilter
 
 import (
 	"encoding/binary"
+	"fmt"
 	"hash/fnv"
+	"io"
 	"math"
 	"os"
 	"sync"
@@ -152,9 +154,22 @@ func LoadBloomFilter(filePath string) (*BloomFilter, error) {
 	expectedN := binary.LittleEndian.Uint64(header[16:24])
 	insertions := binary.LittleEndian.Uint64(header[24:32])
 
+	// Validate the header against the file before trusting it: a damaged size
+	// would otherwise be used for a huge allocation or as a divisor, and a
+	// damaged number of hash functions as a loop bound
+	stat, err := file.Stat()
+	if err != nil {
+		return nil, err
+	}
+	if size == 0 || hashFuncs == 0 || hashFuncs > 64 ||
+		size > uint64(stat.Size())*8 || uint64(stat.Size()) != 32+(size+7)/8 {
+		return nil, fmt.Errorf("invalid bloom filter header: size=%d hashFuncs=%d fileSize=%d",
+			size, hashFuncs, stat.Size())
+	}
+
 	// Read bit array
 	bits := make([]byte, (size+7)/8)
-	if _, err := file.Read(bits); err != nil {
+	if _, err := io.ReadFull(file, bits); err != nil {
 		return nil, err
 	}
 
